@@ -214,7 +214,7 @@ def check_history(H, case):
         must = serial in post_ret and post_ret[serial] < shutdown and dest in reg_done \
             and reg_done[dest] < shutdown
         if must and n == 0:
-            late = post_call[serial] < registered[dest]
+            late = post_call[serial] < reg_done[dest]
             return ("delivered", f"message {serial} ({sender}->{dest}, type {prio}) was posted "
                     f"(call returned at event {post_ret[serial]}, shutdown called at {shutdown}) "
                     f"but never handled", {"to_late_dest": late, "from": sender.rstrip("0123456789")})
@@ -252,7 +252,7 @@ def check_history(H, case):
         lst.sort()
         order = [h for _, h, _ in lst]
         if order != sorted(order):
-            late = any(post_call[s] < registered.get(key[2], 0) for _, _, s in lst)
+            late = any(post_call[s] < reg_done.get(key[2], 0) for _, _, s in lst)
             return ("fifo_per_sender", f"messages of {key[0]} (type {key[1]}, to {key[2]}) posted "
                     f"in order {[s for _, _, s in lst]} were handled in order "
                     f"{[s for _, _, s in sorted(lst, key=lambda x: x[1])]}",
